@@ -31,6 +31,8 @@ def cases(draw, tier):
     # Meek/Warren: the arithmetic's default omega. A coarse explicit omega (omega=0 stops iterating at a total surplus of one
     # whole vote) trades proportionality for speed by the caller's choice; the property's allowance is about rounding only.
     case['options'].pop('omega', None)
+    if case['rule'] in ('wigm', 'meek', 'warren') and d.p(15):
+        case['options']['display'] = d.choice([0, 0, 1, 2])     # a coarse display must not coarsen the count (comparison tolerance, quota)
     if len(el) >= 3 and d.p(75):
         size = d.int(2, len(el) - 1)
         S = d.sample(el, size)
